@@ -44,7 +44,7 @@ func H_C10_frame() {
 	xs := make([]T, n)
 	st := make([]c10State, n)
 	for i := range xs {
-		xs[i], _ = operandInState(vrt.Nm("x", i), opShape(), vrt.Concretize(vrt.Int(vrt.Nm("state", i), 0, 2)))
+		xs[i], _ = operandInState(vrt.Nm("x", i), opShapeOf(op, i), vrt.Concretize(vrt.Int(vrt.Nm("state", i), 0, 2)))
 		st[i] = c10Capture(xs[i])
 	}
 	if n == 1 {
